@@ -1,6 +1,21 @@
 import FalconModel.AsyncReader
 import FalconModel.AsyncReaderIter
+import FalconModel.AsyncReaderNested
 open ARd Rd
+
+/-! line-protocol driver for the models of falcon/asgi/reader.py:
+
+      new <chunk> <piece hex | -> ...     -> ok          root reader `ARd.AR` over the given source pieces
+      read <n|none> | readall | peek <n> | ru <d> <n|none> <0|1> | pu <d> <0|1> | pipe | exhaust | iter <k>
+                                          -> ok <hex> | unit | err delim | err value | chunks <hex|-> ...
+                                             followed by ` tell=<tell()> eof=<eof>` of the reader addressed
+      delimit <d>                         -> ok          the innermost reader's `delimit(d)` becomes the innermost reader
+      pop                                 -> ok          the innermost (delimited) reader is dropped; its parent is addressed again
+
+    Level 0 runs the root model `ARd` (+ `ARi.iterate`); a delimited child is `Ma.AR (Ma.DelimGen σ)` - the transcription of
+    the same file generic in its chunk source, the source being the parent's `_iter_delimited` generator - created from
+    `An.toMa` of the root state (AsyncReaderNestedProofs.lean: `An.toMa_asyncStep` - every root operation commutes with
+    `toMa`); dropping a level-1 child translates the parent back (`An.ofMa`, `An.ofMa_toMa`). -/
 
 def hexD (n : Nat) : Char := if n < 10 then Char.ofNat (48+n) else Char.ofNat (87+n)
 def toHex (bs : Bytes) : String := String.ofList (bs.flatMap fun b => [hexD (b.toNat/16), hexD (b.toNat%16)])
@@ -16,27 +31,80 @@ def showRes : ARd.Res → String
   | .delimErr => "err delim"
   | .valueErr => "err value"
 def st (r : AR) : String := s!" tell={tell r} eof={eof r}"
+def showChunks (cs : List Bytes) : String :=
+  "chunks" ++ String.join (cs.map fun c => " " ++ (if c.isEmpty then "-" else toHex c))
 
-def step' (r : AR) (line : String) : AR × String :=
-  match line.trimAscii.toString.splitOn " " with
-  | "new" :: chunk :: parts =>
-    ({ chunk := chunk.toInt!, src := parts.map fromHex }, "ok")
-  | ["read", n] => let (x, r) := ARd.read r (optInt n); (r, showRes x ++ st r)
-  | ["readall"] => let (x, r) := ARd.readall r; (r, showRes x ++ st r)
-  | ["peek", n] => let (b, r) := ARd.peek r n.toInt!; (r, "ok " ++ toHex b ++ st r)
-  | ["ru", d, n, c] => let (x, r, _) := ARd.readUntil r (fromHex d) (optInt n) (c == "1"); (r, showRes x ++ st r)
-  | ["pu", d, c] => let (x, r) := ARd.pipeUntil r (fromHex d) (c == "1"); (r, showRes x ++ st r)
-  | ["pipe"] => let (x, r) := ARd.pipe r; (r, showRes x ++ st r)
+/-- one operation on the root reader -/
+def step0 (r : AR) (ws : List String) : Option (AR × String) :=
+  match ws with
+  | ["read", n] => let (x, r) := ARd.read r (optInt n); some (r, showRes x ++ st r)
+  | ["readall"] => let (x, r) := ARd.readall r; some (r, showRes x ++ st r)
+  | ["peek", n] => let (b, r) := ARd.peek r n.toInt!; some (r, "ok " ++ toHex b ++ st r)
+  | ["ru", d, n, c] => let (x, r, _) := ARd.readUntil r (fromHex d) (optInt n) (c == "1"); some (r, showRes x ++ st r)
+  | ["pu", d, c] => let (x, r) := ARd.pipeUntil r (fromHex d) (c == "1"); some (r, showRes x ++ st r)
+  | ["pipe"] => let (x, r) := ARd.pipe r; some (r, showRes x ++ st r)
   | ["iter", k] =>
     let (cs, r) := ARi.iterate r (max k.toNat! 1)
-    (r, "chunks" ++ String.join (cs.map fun c => " " ++ (if c.isEmpty then "-" else toHex c)) ++ st r)
-  | ["exhaust"] => let (x, r) := ARd.pipe r; (r, (match x with | .ok _ => "unit" | e => showRes e) ++ st r)
-  | _ => (r, "bad-op")
+    some (r, showChunks cs ++ st r)
+  | ["exhaust"] => let (x, r) := ARd.pipe r; some (r, (match x with | .ok _ => "unit" | e => showRes e) ++ st r)
+  | _ => none
 
-partial def loop (h : IO.FS.Stream) (r : AR) : IO Unit := do
+def parseOp (ws : List String) : Option An.NOp :=
+  match ws with
+  | ["read", n] => some (.op (.read (optInt n)))
+  | ["readall"] => some (.op .readall)
+  | ["peek", n] => some (.op (.peek n.toInt!))
+  | ["ru", d, n, c] => some (.op (.readUntil (fromHex d) (optInt n) (c == "1")))
+  | ["pu", d, c] => some (.op (.pipeUntil (fromHex d) (c == "1")))
+  | ["pipe"] => some (.op .pipe)
+  | ["exhaust"] => some (.op .exhaust)
+  | ["iter", k] => some (.iter (max k.toNat! 1))
+  | _ => none
+
+def showN : An.NObs → String
+  | .obs (.bytes b) => "ok " ++ toHex b
+  | .obs .unit => "unit"
+  | .obs .delimErr => "err delim"
+  | .obs .valueErr => "err value"
+  | .chunks cs => showChunks cs
+  | .valueErr => "err value"
+
+/-- one operation on a delimited reader of any depth -/
+def stepN {σ : Type} [Ma.ASource σ] (r : Ma.AR σ) (ws : List String) : Option (Ma.AR σ × String) :=
+  match parseOp ws with
+  | some op => let x := An.nStep r op; some (x.2, showN x.1 ++ s!" tell={Ma.tell x.2} eof={Ma.eof x.2}")
+  | none => none
+
+/-- the innermost reader; a delimited reader contains its parent (`c.src.parent`) -/
+inductive St where
+  | l0 (r : AR)
+  | l1 (c : Ma.AR (Ma.DelimGen Ma.Raw))
+  | l2 (c : Ma.AR (Ma.DelimGen (Ma.DelimGen Ma.Raw)))
+
+def step' (s : St) (line : String) : St × String :=
+  match line.trimAscii.toString.splitOn " " with
+  | "new" :: chunk :: parts =>
+    (.l0 { chunk := chunk.toInt!, src := parts.map fromHex }, "ok")
+  | ["delimit", d] =>
+    match s with
+    | .l0 r => (.l1 (Ma.delimit (An.toMa r) (fromHex d)), "ok")
+    | .l1 c => (.l2 (Ma.delimit c (fromHex d)), "ok")
+    | _ => (s, "bad-op")
+  | ["pop"] =>
+    match s with
+    | .l1 c => (.l0 (An.ofMa c.src.parent), "ok")
+    | .l2 c => (.l1 c.src.parent, "ok")
+    | _ => (s, "bad-op")
+  | ws =>
+    match s with
+    | .l0 r => match step0 r ws with | some (r, out) => (.l0 r, out) | none => (s, "bad-op")
+    | .l1 c => match stepN c ws with | some (c, out) => (.l1 c, out) | none => (s, "bad-op")
+    | .l2 c => match stepN c ws with | some (c, out) => (.l2 c, out) | none => (s, "bad-op")
+
+partial def loop (h : IO.FS.Stream) (s : St) : IO Unit := do
   let line ← h.getLine
   if line.isEmpty then return ()
-  let (r', out) := step' r line
+  let (s', out) := step' s line
   IO.println out
-  loop h r'
-def main : IO Unit := do loop (← IO.getStdin) { chunk := 1, src := [] }
+  loop h s'
+def main : IO Unit := do loop (← IO.getStdin) (.l0 { chunk := 1, src := [] })
